@@ -328,9 +328,19 @@ def other_cases(ctx, rng, scale, add, dist, failures):
         dist['rpq'] += 1
         # LatentQuantize: each latent dimension takes the nearest of its values
         levels = [rng.choice([2, 3, 4, 5, 6]) for _ in range(rng.choice([1, 2, 3]))]
+        if ci % 4 < 2:
+            levels = [[5, 5, 8], [3, 6], [2, 4, 3], [6, 2]][ci % 4 + 2 * (ci // 4 % 2)]      # mixed level counts per latent
         dimq = len(levels) + rng.choice([0, 0, 1])
         lq = LatentQuantize(levels=levels, dim=dimq, optimize_values=rng.random() < 0.5)
         lq.train(rng.random() < 0.5)
+        moved = ci % 2 == 0
+        if moved:
+            # "after arbitrary training": the per-latent values have moved off their initial grid (custom loss, checkpoint, direct assignment),
+            # in particular 0.0 is no longer one of them
+            with torch.no_grad():
+                for v in lq.values_per_latent:
+                    v.add_(torch.tensor([rng.choice([-3, -2, 2, 3, 5]) / 64 for _ in range(v.numel())]))
+            dist['latent_moved_values'] = dist.get('latent_moved_values', 0) + 1
         exact = dimq == len(levels) and rng.random() < 0.5
         z = (vqrec.grid(rng, (2, dimq, 3), den=16, lim=12) if exact else torch.randn(2, dimq, 3) * 0.4)
         with torch.no_grad():
